@@ -227,7 +227,7 @@ func NewWorld(x *vexp.X, opts ...vivid.ActorSystemOption) *World {
 			w.seg[p.Ref]++
 			w.RestartedPending[p.Ref] = true
 		}
-		if !w.Quiet {
+		if !w.Quiet || verbose {
 			x.Logf("pub %s %s", p.Type, d)
 		}
 	})
@@ -445,7 +445,7 @@ func (a *Act) Record(ctx vivid.ActorContext) {
 	}
 	cur := incs[len(incs)-1]
 	cur.Entries = append(cur.Entries, e)
-	if !w.Quiet {
+	if !w.Quiet || verbose {
 		w.X.Logf("see %s", e.String())
 	}
 }
@@ -516,7 +516,7 @@ func (w *World) Decider(supervisor string, oneForAll bool, decision vivid.Superv
 			w.BeforeDecision(supervisor, c) // a decision maker is user code: it may take arbitrarily long
 		}
 		w.Decisions = append(w.Decisions, fmt.Sprintf("%s<-%s:%s", supervisor, c, decision.String()))
-		if !w.Quiet {
+		if !w.Quiet || verbose {
 			w.X.Logf("decide %s<-%s:%s", supervisor, c, decision.String())
 		}
 		return decision, "scripted"
@@ -526,6 +526,9 @@ func (w *World) Decider(supervisor string, oneForAll bool, decision vivid.Superv
 	}
 	return vivid.OneForOneStrategy(dm)
 }
+
+// verbose (env VSYS_VERBOSE) overrides World.Quiet when a recorded schedule is replayed for diagnosis.
+var verbose = os.Getenv("VSYS_VERBOSE") != ""
 
 // Coarse is the configuration of actor-level exploration: switches between messages only.
 func Coarse(stepBudget int) vrt.Config {
